@@ -1,0 +1,57 @@
+//! Verification hooks (compiled only with `--cfg rssched_verif`; off by default).
+//! Records every accepted local-search step into a thread-local recorder if one is armed.
+
+use std::cell::RefCell;
+
+use rapid_solve::objective::{BaseValue, EvaluatedSolution, ObjectiveValue};
+
+use crate::local_search::ScheduleWithInfo;
+
+pub struct LocalSearchStep {
+    pub iteration: u32,
+    pub solution: ScheduleWithInfo,
+    pub objective: Vec<i64>,
+    pub previous_objective: Option<Vec<i64>>,
+}
+
+thread_local! {
+    static RECORDER: RefCell<Option<Vec<LocalSearchStep>>> = const { RefCell::new(None) };
+}
+
+pub fn arm() {
+    RECORDER.with(|r| *r.borrow_mut() = Some(Vec::new()));
+}
+
+pub fn take() -> Vec<LocalSearchStep> {
+    RECORDER.with(|r| r.borrow_mut().take().unwrap_or_default())
+}
+
+pub fn objective_vector(value: &ObjectiveValue) -> Vec<i64> {
+    value
+        .iter()
+        .map(|b| match b {
+            BaseValue::Integer(i) => *i,
+            BaseValue::Float(f) => *f as i64,
+            BaseValue::Duration(d) => d.in_sec().map(|s| s as i64).unwrap_or(i64::MAX),
+            BaseValue::Maximum => i64::MAX,
+            BaseValue::Zero => 0,
+        })
+        .collect()
+}
+
+pub fn local_search_step(
+    iteration: u32,
+    current: &EvaluatedSolution<ScheduleWithInfo>,
+    previous: Option<&EvaluatedSolution<ScheduleWithInfo>>,
+) {
+    RECORDER.with(|r| {
+        if let Some(steps) = r.borrow_mut().as_mut() {
+            steps.push(LocalSearchStep {
+                iteration,
+                solution: current.solution().clone(),
+                objective: objective_vector(current.objective_value()),
+                previous_objective: previous.map(|p| objective_vector(p.objective_value())),
+            });
+        }
+    });
+}
